@@ -1,6 +1,7 @@
 package catalog
 
 import (
+	"fmt"
 	"strings"
 
 	"github.com/jsightapi/jsight-schema-go-library/bytes"
@@ -26,7 +27,8 @@ func (m regexMarshaller) Marshal(name string, regexStr bytes.Bytes) (schema Sche
 			if e, ok := r.(error); ok {
 				err = e
 			} else {
-				panic(r)
+				// the example generator also panics with plain strings ("invalid argument to Intn")
+				err = fmt.Errorf("%v", r)
 			}
 		}
 	}()
